@@ -61,3 +61,444 @@ def register(add, tu, repo, bdir):
     add("ttl_always", "Z -> Z", lambda: first(_ttl_assignments(M(), "always_expect_")), "src/mocks.c:always_expect_")
     add("ttl_never", "Z -> Z", lambda: first(_ttl_assignments(M(), "never_expect_")), "src/mocks.c:never_expect_")
     add("vector_step", "Z", lambda: _vector_step(tu("src/vector.c")), "src/vector.c:increase_space")
+    register_constraints(add, tu)
+    register_ctors(add, tu)
+    register_legacy(add, tu, repo)
+    register_formats(add, tu)
+
+
+# ------------------------------------------------------------------------------------------
+# comparator bodies (C05): a function body made of local initialisations, `if (c) return e;`
+# and a final `return e;` becomes a Gallina expression over integer (Z) and string (ostr)
+# variables and the libc models of CStr.v
+# ------------------------------------------------------------------------------------------
+BOOL_FUNS = {"strings_are_equal": "strings_are_equal_src", "string_contains": "string_contains_src",
+             "compare_want_value": None, "compare_want_contents": None, "compare_want_string": None,
+             "compare_want_substring": None, "compare_want_end_of_string": None, "doubles_are_equal": None}
+INT_FUNS = {"strlen": "strlen_z", "strcmp": "strcmp_m", "strpos": "strpos_src", "memcmp": "memcmp_m"}
+STR_FUNS = {"strstr": "strstr_m"}
+
+
+class Body:
+    def __init__(self, env_int, env_str, calls):
+        self.env_int, self.env_str, self.calls = dict(env_int), dict(env_str), calls
+
+    def key(self, e):
+        base, path = member_path(e)
+        return base + ("->" + ".".join(path) if path else "")
+
+    def is_null_lit(self, e):
+        e = strip(e)
+        for n in walk(e):
+            k = n.get("kind")
+            if k == "IntegerLiteral" and int(n["value"]) == 0:
+                return True
+            if k == "GNUNullExpr":
+                return True
+            if k in ("DeclRefExpr", "MemberExpr", "CallExpr"):
+                return False
+        return False
+
+    def str_expr(self, e):
+        e = strip(e)
+        k = e.get("kind")
+        if k in ("ImplicitCastExpr", "CStyleCastExpr"):
+            return self.str_expr(e["inner"][0])
+        if k in ("DeclRefExpr", "MemberExpr"):
+            key = self.key(e)
+            if key in self.env_str:
+                return self.env_str[key]
+            raise Cannot("string variable " + key)
+        if k == "UnaryOperator" and e.get("opcode") == "&":
+            sub = strip(e["inner"][0])
+            if sub.get("kind") == "ArraySubscriptExpr":
+                return "(str_from %s %s)" % (self.str_expr(sub["inner"][0]), self.int_expr(sub["inner"][1]))
+        if k == "CallExpr":
+            name = strip(e["inner"][0])["referencedDecl"]["name"]
+            if name in STR_FUNS:
+                return "(%s %s)" % (STR_FUNS[name], " ".join(self.str_expr(a) for a in e["inner"][1:]))
+        raise Cannot("string expression " + str(k))
+
+    def call(self, e):
+        name = strip(e["inner"][0])["referencedDecl"]["name"]
+        args = e["inner"][1:]
+        if name in self.calls:
+            return name, self.calls[name](self, args)
+        if name in BOOL_FUNS and BOOL_FUNS[name]:
+            return name, "(%s %s)" % (BOOL_FUNS[name], " ".join(self.str_expr(a) for a in args))
+        if name in INT_FUNS:
+            return name, "(%s %s)" % (INT_FUNS[name], " ".join(self.str_expr(a) for a in args))
+        raise Cannot("call of " + name)
+
+    def bool_expr(self, e):
+        e0 = e
+        e = strip(e)
+        k = e.get("kind")
+        if k == "ImplicitCastExpr" and e.get("castKind") in ("IntegralCast", "IntegralToBoolean", "PointerToBoolean"):
+            return self.bool_expr(e["inner"][0])
+        if k == "CXXBoolLiteralExpr":
+            return "true" if e.get("value") else "false"
+        if k == "BinaryOperator":
+            op = e["opcode"]
+            a, b = e["inner"]
+            if op in ("&&", "||"):
+                return "(%s %s %s)" % (self.bool_expr(a), op, self.bool_expr(b))
+            if op in ("==", "!="):
+                # pointer against NULL?
+                for x, y in ((a, b), (b, a)):
+                    if self.is_null_lit(y):
+                        try:
+                            s = self.str_expr(x)
+                            return ("(is_null %s)" if op == "==" else "(negb (is_null %s))") % s
+                        except Cannot:
+                            pass
+            cmpops = {"==": "=?", "<": "<?", "<=": "<=?", ">": ">?", ">=": ">=?"}
+            if op in cmpops:
+                return "(%s %s %s)" % (self.int_expr(a), cmpops[op], self.int_expr(b))
+            if op == "!=":
+                return "(negb (%s =? %s))" % (self.int_expr(a), self.int_expr(b))
+        if k == "UnaryOperator" and e.get("opcode") == "!":
+            return "(negb %s)" % self.bool_expr(e["inner"][0])
+        if k == "CallExpr":
+            name, txt = self.call(e)
+            if name in BOOL_FUNS or name.startswith("compare_") or name.endswith("_are_equal"):
+                return txt
+            return "(negb (%s =? 0))" % txt
+        if k == "IntegerLiteral":
+            return "true" if int(e["value"]) != 0 else "false"
+        return "(negb (%s =? 0))" % self.int_expr(e0)
+
+    def int_expr(self, e):
+        e = strip(e)
+        k = e.get("kind")
+        if k == "IntegerLiteral":
+            return "(%s)" % e["value"]
+        if k in ("ImplicitCastExpr", "CStyleCastExpr") and e.get("castKind") in ("IntegralCast", "NoOp", "LValueToRValue"):
+            inner = self.int_expr(e["inner"][0])
+            t = e.get("type", {}).get("qualType", "")
+            src = strip(e["inner"][0]).get("type", {}).get("qualType", "")
+            # narrowing of a size_t / long to int is kept visible
+            if t == "int" and src in ("unsigned long", "size_t", "long"):
+                return "(wrap_s32 %s)" % inner
+            return inner
+        if k in ("DeclRefExpr", "MemberExpr"):
+            key = self.key(e)
+            if key in self.env_int:
+                return self.env_int[key]
+            raise Cannot("integer variable " + key)
+        if k == "UnaryOperator" and e.get("opcode") == "-":
+            return "(- %s)" % self.int_expr(e["inner"][0])
+        if k == "BinaryOperator" and e["opcode"] in ("+", "-", "*"):
+            a, b = e["inner"]
+            return "(%s %s %s)" % (self.int_expr(a), e["opcode"], self.int_expr(b))
+        if k == "CallExpr":
+            name, txt = self.call(e)
+            if name in BOOL_FUNS or name.startswith("compare_"):
+                return "(if %s then 1 else 0)" % txt
+            return txt
+        if k == "ConditionalOperator":
+            c, a, b = e["inner"]
+            return "(if %s then %s else %s)" % (self.bool_expr(c), self.int_expr(a), self.int_expr(b))
+        if k in ("BinaryOperator", "UnaryOperator"):
+            return "(if %s then 1 else 0)" % self.bool_expr(e)
+        raise Cannot("integer expression " + str(k))
+
+    def stmts(self, stmts, want_bool=True):
+        """-> Gallina expression for the returned value"""
+        if not stmts:
+            raise Cannot("falls off the end")
+        s, rest = stmts[0], stmts[1:]
+        k = s.get("kind")
+        if k == "DeclStmt":
+            out = None
+            for d in s["inner"]:
+                if d.get("kind") != "VarDecl" or not d.get("inner"):
+                    raise Cannot("declaration")
+                qt = d.get("type", {}).get("qualType", "")
+                if "char" in qt and "*" in qt:
+                    self.env_str[d["name"]] = d["name"]
+                    val = self.str_expr(d["inner"][0])
+                else:
+                    val = self.int_expr(d["inner"][0])
+                    if qt == "int" and "wrap_s32" not in val and ("strlen" in val):
+                        val = "(wrap_s32 %s)" % val
+                    self.env_int[d["name"]] = d["name"]
+                out = (d["name"], val) if out is None else out
+                body = self.stmts(rest, want_bool)
+                return "(let %s := %s in %s)" % (d["name"], val, body)
+        if k == "IfStmt":
+            inner = s["inner"]
+            cond, then = inner[0], inner[1]
+            if len(inner) > 2:
+                raise Cannot("if-else")
+            if then.get("kind") == "CompoundStmt":
+                tst = then.get("inner", [])
+            else:
+                tst = [then]
+            return "(if %s then %s else %s)" % (self.bool_expr(cond), self.stmts(tst, want_bool), self.stmts(rest, want_bool))
+        if k == "ReturnStmt":
+            e = s["inner"][0]
+            return self.bool_expr(e) if want_bool else self.int_expr(e)
+        if k == "CStyleCastExpr" or k == "NullStmt":      # (void)x;
+            return self.stmts(rest, want_bool)
+        raise Cannot("statement " + str(k))
+
+
+def _fun_expr(tu, fn, env_int, env_str, calls, want_bool=True):
+    b = Body(env_int, env_str, calls)
+    return b.stmts(body_of(tu["funs"][fn]).get("inner", []), want_bool)
+
+
+def register_constraints(add, tu):
+    C = lambda: tu("src/constraint.c")
+    S = lambda: tu("src/string_comparison.c")
+    A = lambda: tu("src/assertions.c")
+    ienv = {"constraint->expected_value.value.integer_value": "e", "actual->value.integer_value": "a"}
+    senv = {"constraint->expected_value.value.string_value": "e", "actual->value.string_value": "a"}
+
+    def sub(name, strs):
+        # calls of other comparators with (constraint, actual) unchanged
+        return lambda body, args: "(%s a e)" % (name + "_src")
+    icalls = {"compare_want_value": sub("compare_want_value", False)}
+    for fn in ("compare_want_value", "compare_do_not_want_value", "compare_want_greater_value", "compare_want_lesser_value"):
+        add(fn + "_src", "Z -> Z -> bool",
+            (lambda fn=fn: "fun (a e : Z) => " + _fun_expr(C(), fn, ienv, {}, icalls)), "src/constraint.c:" + fn)
+    # string_comparison.c
+    add("strings_are_equal_src", "ostr -> ostr -> bool",
+        lambda: "fun (actual expected : ostr) => " + _fun_expr(S(), "strings_are_equal", {}, {"actual": "actual", "expected": "expected"}, {}),
+        "src/string_comparison.c:strings_are_equal")
+    add("string_contains_src", "ostr -> ostr -> bool",
+        lambda: "fun (actual expected : ostr) => " + _fun_expr(S(), "string_contains", {}, {"actual": "actual", "expected": "expected"}, {}),
+        "src/string_comparison.c:string_contains")
+    scalls = {}
+    for fn in ("compare_want_string", "compare_want_substring", "compare_want_end_of_string"):
+        scalls[fn] = sub(fn, True)
+    scalls["strpos"] = lambda body, args: "(strpos_m %s)" % " ".join(body.str_expr(x) for x in args)
+    for fn in ("compare_want_string", "compare_do_not_want_string", "compare_want_substring", "compare_do_not_want_substring",
+               "compare_want_beginning_of_string", "compare_do_not_want_beginning_of_string",
+               "compare_want_end_of_string", "compare_do_not_want_end_of_string"):
+        add(fn + "_src", "ostr -> ostr -> bool",
+            (lambda fn=fn: "fun (a e : ostr) => " + _fun_expr(C(), fn, {}, senv, scalls)), "src/constraint.c:" + fn)
+
+
+def _unary_ctor(tu, ctor):
+    """create_is_null_constraint etc.: `constraint->compare = &fn` and the literal handed to
+    make_cgreen_integer_value -> fun a => fn_src a lit"""
+    cmp_fn, lit = None, None
+    for n in walk(body_of(tu["funs"][ctor])):
+        if n.get("kind") == "BinaryOperator" and n.get("opcode") == "=":
+            try:
+                base, path = member_path(n["inner"][0])
+            except Cannot:
+                continue
+            if base == "constraint" and path == ["compare"]:
+                for m in walk(n["inner"][1]):
+                    if m.get("kind") == "DeclRefExpr" and m["referencedDecl"].get("kind") == "FunctionDecl":
+                        cmp_fn = m["referencedDecl"]["name"]
+        if n.get("kind") == "CallExpr":
+            callee = strip(n["inner"][0])
+            if callee.get("kind") == "DeclRefExpr" and callee["referencedDecl"]["name"] == "make_cgreen_integer_value":
+                arg = n["inner"][1]
+                for m in walk(arg):
+                    if m.get("kind") == "IntegerLiteral":
+                        lit = int(m["value"])
+                    if m.get("kind") == "CXXBoolLiteralExpr":
+                        lit = 1 if m.get("value") else 0
+    if cmp_fn is None or lit is None:
+        raise Cannot("constructor " + ctor)
+    return "fun (a : Z) => %s_src a (%d)" % (cmp_fn, lit)
+
+
+def register_ctors(add, tu):
+    C = lambda: tu("src/constraint.c")
+    for nm, ctor in (("is_null", "create_is_null_constraint"), ("is_non_null", "create_not_null_constraint"),
+                     ("is_true", "create_is_true_constraint"), ("is_false", "create_is_false_constraint")):
+        add(nm + "_src", "Z -> bool", (lambda ctor=ctor: _unary_ctor(C(), ctor)), "src/constraint.c:" + ctor)
+
+
+# ------------------------------------------------------------------------------------------
+# legacy assertions: the predicate each macro / function hands to assert_true, and its polarity
+# ------------------------------------------------------------------------------------------
+import re as _re
+
+
+def _split_args(s):
+    """top-level comma split of a macro argument list"""
+    out, depth, cur = [], 0, ""
+    for ch in s:
+        if ch in "([":
+            depth += 1
+        elif ch in ")]":
+            depth -= 1
+        if ch == "," and depth == 0:
+            out.append(cur.strip()); cur = ""
+        else:
+            cur += ch
+    out.append(cur.strip())
+    return out
+
+
+def _classify_pred(txt):
+    """-> (base, negated)"""
+    t = txt.replace(" ", "")
+    neg = False
+    while t.startswith("!"):
+        neg = not neg
+        t = t[1:]
+    while t.startswith("(") and t.endswith(")") and _balanced(t[1:-1]):
+        t = t[1:-1]
+    if t in ("result",):
+        return "truth", neg
+    m = _re.fullmatch(r"\(?(tried)\)?(==|!=)\(?(expected)\)?", t)
+    if m:
+        return "value_eq", (neg != (m.group(2) == "!="))
+    for f in ("doubles_are_equal", "strings_are_equal"):
+        if _re.fullmatch(f + r"\(\(?tried\)?,\(?expected\)?\)", t):
+            return f, neg
+    raise Cannot("predicate " + txt)
+
+
+def _balanced(t):
+    d = 0
+    for ch in t:
+        if ch == "(":
+            d += 1
+        elif ch == ")":
+            d -= 1
+            if d < 0:
+                return False
+    return d == 0
+
+
+def _legacy_macros(repo):
+    import os
+    txt = open(os.path.join(repo, "include/cgreen/legacy.h")).read()
+    txt = txt.replace("\\\n", " ")
+    table = {}
+    for m in _re.finditer(r"#define\s+(assert_\w+_with_message)\(([^)]*)\)\s+(.*)", txt):
+        name, body = m.group(1), m.group(3)
+        i = body.index("assert_true)(") + len("assert_true)(")
+        args = _split_args(body[i:body.rindex(")")])
+        pred = _classify_pred(args[3])
+        if name in table and table[name] != pred:
+            raise Cannot("C and C++ definitions of %s differ" % name)
+        table[name] = pred
+    return table
+
+
+def _legacy_item(repo):
+    t = _legacy_macros(repo)
+    order = ["assert_true_with_message", "assert_false_with_message", "assert_equal_with_message",
+             "assert_not_equal_with_message", "assert_double_equal_with_message", "assert_double_not_equal_with_message",
+             "assert_string_equal_with_message", "assert_string_not_equal_with_message"]
+    if sorted(t) != sorted(order):
+        raise Cannot("set of legacy *_with_message macros changed: %s" % sorted(t))
+    base = {"truth": 0, "value_eq": 1, "doubles_are_equal": 2, "strings_are_equal": 3}
+    return "[" + "; ".join("(%d, %s)" % (base[t[n][0]], "true" if t[n][1] else "false") for n in order) + "]%nat"
+
+
+def _assert_fn_pred(tu, fn):
+    """4th argument of the assert_true call in assert_equal_ etc."""
+    for n in walk(body_of(tu["funs"][fn])):
+        if n.get("kind") == "CallExpr" and len(n["inner"]) >= 6:
+            b = Body({"tried": "tried", "expected": "expected"}, {"tried": "tried", "expected": "expected"}, {})
+            return n["inner"][4], b
+    raise Cannot("assert_true call in " + fn)
+
+
+def register_legacy(add, tu, repo):
+    add("legacy_with_message", "list (nat * bool)", lambda: _legacy_item(repo), "include/cgreen/legacy.h:*_with_message")
+    A = lambda: tu("src/assertions.c")
+
+    def ipred(fn):
+        e, b = _assert_fn_pred(A(), fn)
+        b.env_str = {}
+        return "fun (tried expected : Z) => " + b.bool_expr(e)
+
+    def spred(fn):
+        e, b = _assert_fn_pred(A(), fn)
+        b.env_int = {}
+        return "fun (tried expected : ostr) => " + b.bool_expr(e)
+    add("assert_equal_src", "Z -> Z -> bool", lambda: ipred("assert_equal_"), "src/assertions.c:assert_equal_")
+    add("assert_not_equal_src", "Z -> Z -> bool", lambda: ipred("assert_not_equal_"), "src/assertions.c:assert_not_equal_")
+    add("assert_string_equal_src", "ostr -> ostr -> bool", lambda: spred("assert_string_equal_"), "src/assertions.c:assert_string_equal_")
+    add("assert_string_not_equal_src", "ostr -> ostr -> bool", lambda: spred("assert_string_not_equal_"), "src/assertions.c:assert_string_not_equal_")
+
+
+# ------------------------------------------------------------------------------------------
+# message formats (C10): string literals after macro expansion
+# ------------------------------------------------------------------------------------------
+def _c_string(node):
+    """bytes of a StringLiteral node (possibly behind casts)"""
+    for n in walk(node):
+        if n.get("kind") == "StringLiteral":
+            v = n["value"]
+            import codecs
+            return codecs.decode(v[1:-1], "unicode_escape").encode("latin-1")
+    raise Cannot("string literal")
+
+
+def _coq_bytes(b):
+    return "[" + "; ".join(str(x) for x in b) + "]%N"
+
+
+def _gvar_string(tu, name):
+    d = tu["gvars"].get(name)
+    if d is None:
+        raise Cannot("global " + name)
+    return _c_string(d)
+
+
+def _ctor_formats(tu, ctor):
+    """(name, actual_value_message or None=default, expected_value_message or None=default)"""
+    res = {"name": None, "actual_value_message": None, "expected_value_message": None}
+    for n in walk(body_of(tu["funs"][ctor])):
+        if n.get("kind") == "BinaryOperator" and n.get("opcode") == "=":
+            try:
+                base, path = member_path(n["inner"][0])
+            except Cannot:
+                continue
+            if base == "constraint" and len(path) == 1 and path[0] in res:
+                res[path[0]] = _c_string(n["inner"][1])
+    if res["name"] is None:
+        raise Cannot("name of " + ctor)
+    return res
+
+
+CTORS = [("eq", "create_equal_to_value_constraint"), ("hex", "create_equal_to_hexvalue_constraint"),
+         ("ne", "create_not_equal_to_value_constraint"), ("lt", "create_less_than_value_constraint"),
+         ("gt", "create_greater_than_value_constraint"), ("null", "create_is_null_constraint"),
+         ("nonnull", "create_not_null_constraint"), ("true", "create_is_true_constraint"),
+         ("false", "create_is_false_constraint"),
+         ("seq", "create_equal_to_string_constraint"), ("sne", "create_not_equal_to_string_constraint"),
+         ("scontains", "create_contains_string_constraint"), ("sncontains", "create_does_not_contain_string_constraint"),
+         ("sbegins", "create_begins_with_string_constraint"), ("snbegins", "create_does_not_begin_with_string_constraint"),
+         ("sends", "create_ends_with_string_constraint"), ("snends", "create_does_not_end_with_string_constraint")]
+
+
+def register_formats(add, tu):
+    C = lambda: tu("src/constraint.c")
+    MF = lambda: tu("src/message_formatting.c")
+    A = lambda: tu("src/assertions.c")
+    add("default_avm", "list N", lambda: _coq_bytes(_gvar_string(C(), "default_actual_value_message")), "src/constraint.c:default_actual_value_message")
+    add("default_evm", "list N", lambda: _coq_bytes(_gvar_string(C(), "default_expected_value_message")), "src/constraint.c:default_expected_value_message")
+    for g in ("actual_value_string_format", "expected_value_string_format", "constraint_as_string_format"):
+        add("fmt_" + g, "list N", (lambda g=g: _coq_bytes(_gvar_string(MF(), g))), "src/message_formatting.c:" + g)
+
+    def table():
+        rows = []
+        for tag, ctor in CTORS:
+            f = _ctor_formats(C(), ctor)
+            rows.append("(%s, %s, %s)" % (_coq_bytes(f["name"]),
+                                          "default_avm" if f["actual_value_message"] is None else _coq_bytes(f["actual_value_message"]),
+                                          "default_evm" if f["expected_value_message"] is None else _coq_bytes(f["expected_value_message"])))
+        return "[" + ";\n   ".join(rows) + "]"
+    add("constraint_formats", "list (list N * list N * list N)", table, "src/constraint.c:create_*_constraint")
+
+    def afmt(fn):
+        for n in walk(body_of(A()["funs"][fn])):
+            if n.get("kind") == "CallExpr" and len(n["inner"]) >= 6:
+                return _coq_bytes(_c_string(n["inner"][5]))
+        raise Cannot("format of " + fn)
+    for fn in ("assert_equal_", "assert_not_equal_", "assert_string_equal_", "assert_string_not_equal_"):
+        add("fmt_" + fn, "list N", (lambda fn=fn: afmt(fn)), "src/assertions.c:" + fn)
